@@ -4,7 +4,7 @@ uninterpreted booleans; no repository code runs."""
 import ast
 import itertools
 
-from .cfg import literals, all_atoms, eval_struct, unparse
+from .cfg import literals, all_atoms, eval_struct, unparse, norm_cmp
 from .model import Undecided
 
 MAX_ATOMS = 14
@@ -42,7 +42,8 @@ class Table:
 
 def _boolform(v):
     return (isinstance(v, ast.Constant) and isinstance(v.value, bool)) or isinstance(v, (ast.Compare, ast.BoolOp)) or \
-        (isinstance(v, ast.UnaryOp) and isinstance(v.op, ast.Not))
+        (isinstance(v, ast.UnaryOp) and isinstance(v.op, ast.Not)) or \
+        (isinstance(v, ast.Call) and isinstance(v.func, ast.Name) and v.func.id == 'bool' and len(v.args) == 1)
 
 
 def _flag_names(stmts, descend_loops):
@@ -102,7 +103,50 @@ def _flag_names(stmts, descend_loops):
             for n in ast.walk(st):
                 if isinstance(n, ast.Return) and isinstance(n.value, ast.Name):
                     returned.add(n.value.id)
+    # sentinel pattern only: some binding is the constant None
+    _flag_names.trackable = {n for n, vs in vals.items() if all(v is not None for v in vs) and
+                             any(isinstance(v, ast.Constant) and v.value is None for v in vs)}
     return {n for n, vs in vals.items() if all(v is not None for v in vs) and (any(_boolform(v) for v in vs) or n in returned)}
+
+
+_NONE = ast.Constant(value=None)
+
+
+def _none_atom(expr):
+    """the canonical atom `expr == None`"""
+    return norm_cmp(expr, ast.Is(), _NONE)[0]
+
+
+def _tests_of(stmts, descend_loops):
+    out = []
+    for st in stmts:
+        if isinstance(st, ast.If):
+            out.append(st.test)
+            out.extend(_tests_of(st.body, descend_loops))
+            out.extend(_tests_of(st.orelse, descend_loops))
+        elif isinstance(st, (ast.With, ast.AsyncWith)):
+            out.extend(_tests_of(st.body, descend_loops))
+        elif isinstance(st, ast.Try):
+            for b in (st.body, st.orelse, st.finalbody):
+                out.extend(_tests_of(b, descend_loops))
+        elif isinstance(st, (ast.For, ast.While)) and descend_loops:
+            out.extend(_tests_of(st.body, descend_loops))
+    return out
+
+
+def _none_names(stmts, descend_loops, trackable):
+    """trackable locals that are tested against None: their None-ness is followed through the run (sentinel results:
+    `r = None ... r = value ... if r is not None:`)"""
+    out = set()
+    for t in _tests_of(stmts, descend_loops):
+        for at, pol in all_atoms(t):
+            if at.op == '==' and isinstance(at.right, ast.Constant) and at.right.value is None and isinstance(at.left, ast.Name) \
+                    and at.left.id in trackable:
+                out.add(at.left.id)
+            elif at.op == '==' and isinstance(at.left, ast.Constant) and at.left.value is None and isinstance(at.right, ast.Name) \
+                    and at.right.id in trackable:
+                out.add(at.right.id)
+    return out
 
 
 class _Env:
@@ -123,6 +167,11 @@ _OPT = {'bool_returns': False}
 
 def _collect(stmts, out, objs, descend_loops, flags=()):
     for st in stmts:
+        if isinstance(st, ast.Assign) and len(st.targets) == 1 and isinstance(st.targets[0], ast.Name) and \
+                st.targets[0].id in _OPT.get('none_names', ()) and not isinstance(st.value, ast.Constant):
+            at = _none_atom(st.value)
+            out.add(at.text)
+            objs.setdefault(at.text, at)
         if _OPT['bool_returns'] and isinstance(st, ast.Return) and st.value is not None and _boolform(st.value):
             for at, pol in all_atoms(st.value):
                 out.add(at.text)
@@ -152,9 +201,20 @@ def _collect(stmts, out, objs, descend_loops, flags=()):
 def _run(stmts, asg, events, event_of, terminal_yield, descend_loops):
     for st in stmts:
         if event_of is not None:
-            ev = event_of(st)
+            if getattr(event_of, 'wants_env', False):
+                # the event function may ask for the truth value of an expression in the current abstract state
+                ev = event_of(st, lambda e: eval_struct(literals(e), asg))
+            else:
+                ev = event_of(st)
             if ev is not None:
                 events.append(ev)
+        if isinstance(asg, _Env) and isinstance(st, ast.Assign) and len(st.targets) == 1 and isinstance(st.targets[0], ast.Name) and \
+                st.targets[0].id in asg.none_names:
+            key = _none_atom(st.targets[0]).text
+            if isinstance(st.value, ast.Constant):
+                asg.flags[key] = st.value.value is None
+            else:
+                asg.flags[key] = asg[_none_atom(st.value).text]
         if isinstance(asg, _Env) and isinstance(st, ast.Assign) and len(st.targets) == 1 and isinstance(st.targets[0], ast.Name) and \
                 st.targets[0].id in asg.tracked:
             asg.flags[st.targets[0].id] = eval_struct(literals(st.value), asg)
@@ -193,11 +253,14 @@ def table(stmts, classify, event_of=None, terminal_yield=True, descend_loops=Fal
         return _table(stmts, classify, event_of, terminal_yield, descend_loops)
     finally:
         _OPT['bool_returns'] = False
+        _OPT['none_names'] = ()
 
 
 def _table(stmts, classify, event_of, terminal_yield, descend_loops):
     atoms, objs = set(), {}
     flags = _flag_names(stmts, descend_loops)
+    nones = _none_names(stmts, descend_loops, _flag_names.trackable)
+    _OPT['none_names'] = nones
     _collect(stmts, atoms, objs, descend_loops, flags)
     atoms = sorted(atoms)
     if len(atoms) > MAX_ATOMS:
@@ -207,6 +270,7 @@ def _table(stmts, classify, event_of, terminal_yield, descend_loops):
     for vals in itertools.product([False, True], repeat=len(atoms)):
         asg = _Env(dict(zip(atoms, vals)), used)
         asg.tracked = flags
+        asg.none_names = nones
         events = []
         try:
             _run(stmts, asg, events, event_of, terminal_yield, descend_loops)
@@ -216,7 +280,8 @@ def _table(stmts, classify, event_of, terminal_yield, descend_loops):
         rows[vals] = out
         evs[vals] = tuple(events)
     # a tracked flag that was never read before its first assignment is not an input of the table
-    drop = [i for i, a in enumerate(atoms) if a in flags and a not in used]
+    none_keys = {_none_atom(ast.Name(id=n, ctx=ast.Load())).text for n in nones}
+    drop = [i for i, a in enumerate(atoms) if (a in flags or a in none_keys) and a not in used]
     if drop:
         keep = [i for i in range(len(atoms)) if i not in drop]
         atoms = [atoms[i] for i in keep]
